@@ -229,7 +229,7 @@ def gen_pkg(rng, with_rest=False, want_local=None, want_collision=False):
     if with_rest:
         kinds += ["rest", "rest", "rest", "urest", "_rest", "iface_universe"]
     if want_local is None:
-        want_local = rng.random() < 0.15
+        want_local = rng.random() < 0.4
     raw_after = []
     pending_consts = []       # (tyname, names, strconst) to be placed in another file
     nfunc = [0]
@@ -340,15 +340,24 @@ def gen_pkg(rng, with_rest=False, want_local=None, want_collision=False):
             for _ in range(rng.randint(1, 2)):
                 lk = rng.choice(["struct", "struct", "int", "iface"])
                 n = fresh(rng.choice(["e", "u"]))
-                tops = [t.name for _, t in p.all_specs(local=False)]
-                if tops and rng.random() < 0.3:
-                    n = rng.choice(tops)          # a local type shadowing a package-level one (legal Go)
                 loc.append(mk_struct(rng, n, "local_struct") if lk == "struct" else
                            mk_int(rng, n) if lk == "int" else mk_iface(rng, n))
                 if lk == "int":
                     loc[-1].kind = "local_int"
             f.decls.append(("func", "helper%d" % nfunc[0], loc))
             p.features.add("local")
+    # local types shadowing package-level ones of ANY file (legal Go; getGoFile must not be misled by
+    # a function-local declaration in an alphabetically earlier file)
+    tops = [t.name for _, t in p.all_specs(local=False)]
+    for f in p.files:
+        for d in f.decls:
+            if d[0] == "func":
+                for t in d[2]:
+                    if tops and rng.random() < 0.5:
+                        n = rng.choice(tops)
+                        if n not in [u.name for u in d[2]]:
+                            t.go = n + t.go[len(t.name):]
+                            t.name = n
     if want_collision and structs:
         base = rng.choice([s for s in structs if s.kind == "struct"] or structs)
         twin = base.name.upper() if base.name.upper() != base.name else base.name.lower().capitalize()
@@ -487,3 +496,13 @@ def pkg_from_json(j):
     p.features = set(j.get("features", []))
     p.others = [tuple(x) for x in j.get("others", [])]
     return p
+
+
+def shadowed_names(p):
+    """package-level type names that are also declared inside a function body of ANOTHER file"""
+    res = []
+    for f, t in p.all_specs(local=False):
+        for g, u in p.all_specs(top=False):
+            if u.name == t.name and g is not f and t.name not in res:
+                res.append(t.name)
+    return res
